@@ -617,7 +617,8 @@ func (root *Root) resolveField(
 					nv = av.Value
 				}
 				name, _ := nv.(string)
-				t = root.GetType(name)
+				// Only types have a __Type, a directive of that name does not.
+				t = root.getNamedType(name)
 				if t != nil {
 					fv, ea2 = root.resolve(t, vars, field, root.GetType("__Type"), depth)
 					ea = append(ea, ea2...)
